@@ -635,15 +635,23 @@ class SymNum(Sym):
         return self._div(o, True)
 
     def __floordiv__(self, o):
+        if not _numlike(o):
+            return NotImplemented
         return uf_real('floordiv', [self, o])
 
     def __rfloordiv__(self, o):
+        if not _numlike(o):
+            return NotImplemented
         return uf_real('floordiv', [o, self])
 
     def __pow__(self, o):
+        if not _numlike(o):
+            return NotImplemented
         return uf_real('pow', [self, o])
 
     def __rpow__(self, o):
+        if not _numlike(o):
+            return NotImplemented
         return uf_real('pow', [o, self])
 
     def __index__(self):
@@ -654,6 +662,10 @@ class SymNum(Sym):
 
     def __float__(self):
         _abort("float() of symbolic")
+
+
+def _numlike(o):
+    return isinstance(o, (SymNum, SymBool, int, float)) and not _isnan(o)
 
 
 def _plain_scalar(o):
